@@ -24,7 +24,7 @@ impl Prop for C10 {
     type Case = Case;
     const ID: &'static str = "C10";
     const NUM: u64 = 10;
-    const RULE: &'static str = "AdjacencyMap digraphs with vertex set 0..order: enum leg = every digraph of order <=4 (quick) / <=5 (thorough, 2^20 digraphs of order 5); random leg = order 1..7 (uniform densities, 15 structured families incl. complete digraphs, cycles, two circuits joined by an arc), plus 'dense core + tails' and subdivisions (a dense core of 3..5 vertices whose arcs are replaced by chains of degree-(1,1) vertices, randomly relabelled, order <= 12). circuits() is called twice on the same instance and must enumerate the same circuits. Non-trivial = at least 3 circuits and two circuits that share a vertex other than their own start vertices; distinct = distinct serialised case.";
+    const RULE: &'static str = "AdjacencyMap digraphs with vertex set 0..order: enum leg = every digraph of order <=4 (quick) / <=5 (thorough, 2^20 digraphs of order 5); random leg = order 1..7 (uniform densities, 15 structured families incl. complete digraphs, cycles, two circuits joined by an arc), plus 'dense core + tails' and subdivisions (a dense core of 3..5 vertices whose arcs are replaced by chains of degree-(1,1) vertices, randomly relabelled, order <= 12). circuits() is called twice on the same instance and must enumerate the same circuits. One case in three also takes clones and clone_from targets (fresh or used, built over a path, a longer circuit or the converse) and requires the same circuits from them. Non-trivial = at least 3 circuits and two circuits that share a vertex other than their own start vertices; distinct = distinct serialised case.";
     const ASSUMPTIONS: &'static [&'static str] = &[
         "the order of the returned list is free (compared as a set after a no-duplicates check)",
         "order is capped at 7: the brute-force reference is exponential (K7 has 2365 circuits)",
@@ -207,6 +207,44 @@ impl Prop for C10 {
             want.difference(&set).take(3).collect::<Vec<_>>(),
             set.difference(&want).take(3).collect::<Vec<_>>()
         );
+        // clones, and clone_from targets that were built over another digraph
+        // (fresh or already used), must enumerate this digraph's circuits
+        if want.len() <= 60 && (m.size() + m.order()) % 3 == 0 {
+            let n = m.order();
+            let other = match m.size() % 3 {
+                0 => AdjacencyMap::build(&gen::path_dg(n / 2)),
+                1 => AdjacencyMap::build(&gen::Dg { order: n + 2, arcs: (0..n + 2).map(|v| (v, (v + 1) % (n + 2))).collect() }),
+                _ => AdjacencyMap::build(&gen::Dg { order: n, arcs: { let mut a: Vec<(usize, usize)> = c.g.arcs.iter().map(|&(u, v)| (v, u)).collect(); a.sort_unstable(); a } }),
+            };
+            for used_source in [false, true] {
+                let mut src = Johnson75::new(&g);
+                if used_source {
+                    let _ = src.circuits();
+                }
+                let cl: BTreeSet<Vec<usize>> = src.clone().circuits().into_iter().collect();
+                ensure!(cl == want, "a clone of a {} instance enumerates {} circuits, the digraph has {}", if used_source { "used" } else { "fresh" }, cl.len(), want.len());
+                for used_target in [false, true] {
+                    let mut t = Johnson75::new(&other);
+                    if used_target {
+                        let _ = t.circuits();
+                    }
+                    t.clone_from(&src);
+                    let r: BTreeSet<Vec<usize>> = t.circuits().into_iter().collect();
+                    ensure!(
+                        r == want,
+                        "clone_from onto a {} instance built over another digraph ({:?}) from a {} instance: circuits() returns {} circuits, the digraph has {}; missing {:?}, surplus {:?}",
+                        if used_target { "used" } else { "fresh" },
+                        other,
+                        if used_source { "used" } else { "fresh" },
+                        r.len(),
+                        want.len(),
+                        want.difference(&r).take(3).collect::<Vec<_>>(),
+                        r.difference(&want).take(3).collect::<Vec<_>>()
+                    );
+                }
+            }
+            obs.label("clone/clone_from across digraphs");
+        }
         let shared = want.iter().any(|a| {
             want.iter()
                 .any(|b| a != b && a.iter().skip(1).any(|x| b.iter().skip(1).any(|y| x == y)))
